@@ -43,6 +43,8 @@ type World struct {
 	fmPkg  *packages.Package
 	steps  int
 	globals map[string]Value
+	Emitted []string // lines emitted through an interpreted codewriter
+	tables  map[types.Object]map[string]Value
 }
 
 // Static is the part of the world that does not change between runs.
@@ -446,4 +448,80 @@ func (w *World) EnumName(rel, typ string, v int64) string {
 		}
 	}
 	return fmt.Sprint(v)
+}
+
+// pkgTable evaluates a package-level composite literal with constant keys and values (array or map) once.
+func (w *World) pkgTable(pk *packages.Package, obj types.Object) map[string]Value {
+	if obj == nil || obj.Pkg() == nil || obj.Parent() != obj.Pkg().Scope() {
+		return nil
+	}
+	if w.tables == nil {
+		w.tables = map[types.Object]map[string]Value{}
+	}
+	if t, ok := w.tables[obj]; ok {
+		return t
+	}
+	var tab map[string]Value
+	rel, ok := core.RelOf(obj.Pkg())
+	if ok {
+		if dp := w.Prog.Pkg(rel); dp != nil {
+			for _, f := range dp.Syntax {
+				for _, d := range f.Decls {
+					gd, ok := d.(*ast.GenDecl)
+					if !ok {
+						continue
+					}
+					for _, sp := range gd.Specs {
+						vs, ok := sp.(*ast.ValueSpec)
+						if !ok {
+							continue
+						}
+						for i, n := range vs.Names {
+							if dp.TypesInfo.Defs[n] != obj || i >= len(vs.Values) {
+								continue
+							}
+							lit, ok := vs.Values[i].(*ast.CompositeLit)
+							if !ok {
+								continue
+							}
+							t := map[string]Value{}
+							good := true
+							for _, el := range lit.Elts {
+								kv, ok := el.(*ast.KeyValueExpr)
+								if !ok {
+									good = false
+									break
+								}
+								ktv, vtv := dp.TypesInfo.Types[kv.Key], dp.TypesInfo.Types[kv.Value]
+								if ktv.Value == nil || vtv.Value == nil {
+									good = false
+									break
+								}
+								var key string
+								if ktv.Value.Kind() == constant.String {
+									key = "s:" + constant.StringVal(ktv.Value)
+								} else if n, ok := constant.Int64Val(constant.ToInt(ktv.Value)); ok {
+									key = fmt.Sprint(n)
+								} else {
+									good = false
+									break
+								}
+								val, err := constValue(vtv.Value)
+								if err != nil {
+									good = false
+									break
+								}
+								t[key] = val
+							}
+							if good {
+								tab = t
+							}
+						}
+					}
+				}
+			}
+		}
+	}
+	w.tables[obj] = tab
+	return tab
 }
